@@ -56,11 +56,70 @@ func c20Schema(seed uint64, d string) (*schema.Schema, []schema.Change) {
 		mk(c2, p1)
 		mk(c3, p2)
 	}
+	if d != "sqlite" {
+		// tables whose names differ only in letter case (distinct tables in MySQL on a case-sensitive file
+		// system and in PostgreSQL), each referring to another parent
+		for k, nm := range []string{"Case_Twin", "case_twin", "CASE_TWIN", "Case_twin"}[:2+r.Intn(3)] {
+			t := schema.NewTable(nm).SetSchema(s)
+			id, ref := schema.NewIntColumn("id", ity), schema.NewNullIntColumn("ref", ity)
+			t.AddColumns(id, ref).SetPrimaryKey(schema.NewPrimaryKey(id))
+			p := s.Tables[(k*7+int(seed%5))%n]
+			if len(p.Columns) > 0 {
+				t.AddForeignKeys(schema.NewForeignKey(fmt.Sprintf("fk_twin_%d", k)).SetTable(t).AddColumns(ref).SetRefTable(p).AddRefColumns(p.Columns[0]))
+			}
+			s.AddTables(t)
+		}
+	}
 	var cs []schema.Change
 	for _, t := range s.Tables {
 		cs = append(cs, &schema.AddTable{T: t})
 	}
 	return s, cs
+}
+
+// c20HCLPlan: a document exercising many attributes per block -> EvalHCLBytes -> RealmDiff from an empty
+// realm -> PlanChanges; returns the planned statements (or the error text).
+func c20HCLPlan(d string) (doc string, run func() string) {
+	da := c15Dialects()[map[string]int{"mysql": 0, "postgres": 1, "sqlite": 2}[d]]
+	one := schema.New(da.schema)
+	for _, t := range c15AttrTables(&da, hx.NewRand(7, "c20-hclplan-"+d)) {
+		t.Schema = one
+		one.Tables = append(one.Tables, t)
+	}
+	b, err := da.marshal(one)
+	if err != nil {
+		return "", func() string { return "marshal: " + err.Error() }
+	}
+	doc = string(b)
+	if d == "mysql" {
+		// table options the marshaller does not write (see the C15 known finding), several at once
+		doc = strings.Replace(doc, "table \"attrs_indexes\" {\n", "table \"attrs_indexes\" {\n  auto_increment = 1000\n  engine = MyISAM\n", 1)
+	}
+	pl, _, _ := plannerOf(d)
+	return doc, func() (out string) {
+		defer func() {
+			if p := recover(); p != nil {
+				out = fmt.Sprintf("panic: %v", p)
+			}
+		}()
+		var rl schema.Realm
+		if err := da.eval([]byte(doc), &rl); err != nil {
+			return "eval: " + err.Error()
+		}
+		cs, err := da.differ.RealmDiff(schema.NewRealm(schema.New(da.schema)), &rl)
+		if err != nil {
+			return "diff: " + err.Error()
+		}
+		plan, err := pl.PlanChanges(context.Background(), "p", cs)
+		if err != nil {
+			return "plan: " + err.Error()
+		}
+		var sb strings.Builder
+		for _, c := range plan.Changes {
+			sb.WriteString(c.Cmd + ";\n")
+		}
+		return sb.String()
+	}
 }
 
 // c20Digest computes every observable of the case as one string.
@@ -109,6 +168,10 @@ func c20Digest(seed uint64) string {
 			}
 			fmt.Fprintf(&b, "%s hcl err=%v\n%s", d, err, hcl)
 		}()
+	}
+	for _, d := range []string{"mysql", "postgres", "sqlite"} {
+		_, run := c20HCLPlan(d)
+		fmt.Fprintf(&b, "%s hcl->plan\n%s", d, run())
 	}
 	// directory hash over a map-backed MemDir
 	md := &migrate.MemDir{}
@@ -362,6 +425,27 @@ func runC20(e *Env) error {
 				}
 				sort.Strings(ns)
 				e.Res.Violate("failing-input", "multi-file-evaluation-not-deterministic", fmt.Sprintf("seed %d: evaluating the HCL files %v again (repetition %d) gives another result (err=%v): %s", s, ns, rep, err, firstDiff(first, again)), "Props.C20 deterministic", map[string]any{"seed": s, "files": files})
+				break
+			}
+		}
+	}
+	// HCL document -> evaluated realm -> diff from nothing -> plan, repeated: the statements never change
+	for _, d := range []string{"mysql", "postgres", "sqlite"} {
+		doc, run := c20HCLPlan(d)
+		first := run()
+		ok := !strings.HasPrefix(first, "eval:") && !strings.HasPrefix(first, "diff:") && !strings.HasPrefix(first, "plan:") && !strings.HasPrefix(first, "marshal:") && !strings.HasPrefix(first, "panic:")
+		e.Res.Count("hclplan:"+d, ok, "hcl-to-plan")
+		if !ok {
+			e.Res.Violate("no-failing-input-found", "hcl-to-plan-fails", fmt.Sprintf("%s: the attribute document cannot be planned: %s", d, trunc(first, 300)), "correspondence C20 hcl->plan", map[string]any{"dialect": d})
+			continue
+		}
+		reps := 150
+		if e.Thorough() {
+			reps = 1500
+		}
+		for rep := 0; rep < reps; rep++ {
+			if again := run(); again != first {
+				e.Res.Violate("failing-input", "hcl-to-plan-not-deterministic", fmt.Sprintf("%s: evaluating and planning the same HCL document again (repetition %d) gives other statements: %s", d, rep, firstDiff(first, again)), "Props.C20 deterministic", map[string]any{"dialect": d, "hcl": doc})
 				break
 			}
 		}
